@@ -139,19 +139,23 @@ func BytesToBits(B []byte) []byte {
 }
 
 // ByteEncode is Algorithm 5 (F has 256 entries, each below 2^d, resp. below q for d = 12).
+// Bit i*d+j of the output bit string is bit j of F[i]; BitsToBytes is applied on the fly
+// (bit n of the string is bit n%8 of byte n/8), without materialising the bit array.
 func ByteEncode(d int, F *Poly) []byte {
-	b := make([]byte, 256*d)
+	B := make([]byte, 32*d)
 	for i := 0; i < 256; i++ {
 		a := F[i]
 		if a < 0 || a >= 1<<uint(d) {
 			panic("mlkem ref: ByteEncode operand out of range")
 		}
 		for j := 0; j < d; j++ {
-			b[i*d+j] = byte(a % 2)
-			a = (a - int(b[i*d+j])) / 2
+			bit := a % 2
+			a = (a - bit) / 2
+			n := i*d + j
+			B[n/8] += byte(bit) << (uint(n) % 8)
 		}
 	}
-	return BitsToBytes(b)
+	return B
 }
 
 // ByteDecode is Algorithm 6: for d < 12 entries are taken mod 2^d, for d = 12 mod q.
@@ -168,13 +172,17 @@ func ByteDecode(d int, B []byte) Poly {
 	return F
 }
 
-// ByteDecodeRaw returns the d-bit integers without the final reduction.
+// ByteDecodeRaw returns the d-bit integers without the final reduction (BytesToBits applied on the fly).
 func ByteDecodeRaw(d int, B []byte) Poly {
-	b := BytesToBits(B)
+	if len(B) != 32*d {
+		panic("mlkem ref: ByteDecode length")
+	}
 	var F Poly
 	for i := 0; i < 256; i++ {
 		for j := 0; j < d; j++ {
-			F[i] += int(b[i*d+j]) << uint(j)
+			n := i*d + j
+			bit := int(B[n/8]>>(uint(n)%8)) & 1
+			F[i] += bit << uint(j)
 		}
 	}
 	return F
